@@ -6,6 +6,7 @@ import N0Verif.Model.NXml
   element tree (prefix form):  `<tag> <N | S<hex>> <nattr> (k v)* <nkids> elem*`
   stored value:                `N` | `S<hex>` | `L<n> (tag nattr (k v)* value)*`
   hit:                         `<nsteps> step* value`
+  attributes:                  `<nattr> (k v)*`
 -/
 namespace N0.Drv.NXml
 open N0 N0.Proto N0.NXml
@@ -79,6 +80,13 @@ def showGet : PyM (Option XVal) → String
   | .ok none => "ok default"
   | .ok (some v) => showToks ("ok" :: "some" :: encXVal v)
 
+/-- `get_attrib`: `unsupported` where the model does not follow (empty path: `RuntimeError`) -/
+def showAttr : PyM (Option Attr) → String
+  | .error .Unsupported => "unsupported"
+  | .error e => showErr e
+  | .ok none => "ok default"
+  | .ok (some a) => showToks ("ok" :: "some" :: encAttrs a)
+
 def showFirst : PyM (Option Hit) → String
   | .error e => showErr e
   | .ok none => "ok none"
@@ -125,6 +133,17 @@ def handle (toks : List String) : Option String :=
     | some (steps, e) =>
       match readElem e with
       | some e => some (showGet (getL (parseNode e) steps))
+      | none => some "bad-op"
+    | none => some "bad-op"
+  | "nxml.getattr" :: xp :: e =>
+    match decStr xp, readElem e with
+    | some xp, some e => some (showAttr (getAttrS (parseNode e) xp))
+    | _, _ => some "bad-op"
+  | "nxml.getattrl" :: rest =>
+    match takeStrs rest with
+    | some (steps, e) =>
+      match readElem e with
+      | some e => some (showAttr (getAttrL (parseNode e) steps))
       | none => some "bad-op"
     | none => some "bad-op"
   | "nxml.findall" :: ff :: xp :: e =>
